@@ -130,7 +130,40 @@ func (u *Unit) quickCheck(o *Obl) bool {
 	f.WriteString(u.query(o, false, nil))
 	f.Close()
 	st, _, _ := runSolver(context.Background(), solvers[0], f.Name(), 3, 0)
-	return st == "unsat"
+	if st == "unsat" {
+		return true
+	}
+	if st == "sat" {
+		return false
+	}
+	// undecided within the short budget. On a loaded or slow machine that says nothing about the candidate, and
+	// withdrawing a candidate that the later obligations need turns into a false alarm on an unchanged tree (seen in a
+	// fresh-sandbox run: 3 s were not enough for candidates that take 0.3 s here). So: all solvers, long budget, before
+	// the candidate is given up.
+	budget := 10
+	if st == "timeout" {
+		budget = 25
+	}
+	type r struct{ st string }
+	ctx, cancel := context.WithCancel(context.Background())
+	defer cancel()
+	ch := make(chan r, len(solvers))
+	for _, sp := range solvers {
+		go func(sp solverSpec) {
+			s, _, _ := runSolver(ctx, sp, f.Name(), budget, 0)
+			ch <- r{s}
+		}(sp)
+	}
+	for range solvers {
+		x := <-ch
+		if x.st == "unsat" {
+			return true
+		}
+		if x.st == "sat" {
+			return false
+		}
+	}
+	return false
 }
 
 func (cx *Ctx) buildFuncUnitOnce(fn *ssa.Function, fc *FuncContract, blacklist map[string]bool) (u *Unit, err error) {
